@@ -1,4 +1,6 @@
+import Teleport.Drv.C03
 import Teleport.Drv.C05
+import Teleport.Drv.C07
 import Teleport.Drv.C09
 import Teleport.Drv.C10
 import Teleport.Drv.C11
@@ -12,7 +14,7 @@ open Teleport.Drv
 
 /-- every case kind of the line protocol with its model handler (one list per property module). -/
 def allHandlers : List (String × (Fields → String)) :=
-  handlersC05 ++ handlersC09 ++ handlersC10 ++ handlersC11 ++ handlersC12 ++ handlersC13 ++ handlersC16 ++ handlersC17 ++ handlersC18 ++ handlersC19
+  handlersC03 ++ handlersC05 ++ handlersC07 ++ handlersC09 ++ handlersC10 ++ handlersC11 ++ handlersC12 ++ handlersC13 ++ handlersC16 ++ handlersC17 ++ handlersC18 ++ handlersC19
 
 def handle (line : String) : String :=
   match (line.trimAscii.toString.splitOn " ").filter (· ≠ "") with
